@@ -2,11 +2,13 @@
 import e1
 
 RULE = ("one case = one seed = (generated spec with 2-8 inline/builtin meshes, 1-6 builtin textures incl. random marks, 0-5 muscle actuators on "
-        "joints and spatial tendons so that the length-range pool runs) x (hardware_concurrency knob 2..16, i.e. pool width 1..8) x (scheduling "
+        "joints and spatial tendons so that the length-range pool runs, 0-9 structure elements: nested frames with quat/euler/axisangle/xyaxes/zaxis "
+        "orientations holding geoms (incl. fromto), sites, cameras, lights and static bodies, static-body chains, default classes, 15% fusestatic) x (hardware_concurrency knob 2..16, i.e. pool width 1..8) x (scheduling "
         "policy random/sticky/PCT/starve, basic-block preemption 0/0.01%/0.1%/1%, spurious condition-variable wake-ups); reference bytes = "
         "mj_saveModel of the usethread=0 compile; then, under the case's schedule: usethread=1 compile, second compile of the same spec, "
         "mj_copySpec compiled threaded and unthreaded, mj_copyModel, mj_recompile on a stepped mjData (model bytes + bit-identical time/qpos/"
-        "qvel/act/ctrl), threaded compile of a re-parsed spec; every model must be byte-identical to the reference; a case is non-trivial when "
+        "qvel/act/ctrl), threaded compile of a re-parsed spec; every model must be byte-identical to the reference (the recorded fusestatic findings are counted in-driver for the steps that "
+        "re-use a compiled fusestatic spec, nothing else is tolerated); a case is non-trivial when "
         ">=2 simulated threads were runnable at once; distinct = distinct hash of the scheduling trace")
 ASSUME = [
     "qhull, lodepng and MarchingCubes are stand-ins (the hull stand-in is a deterministic incremental hull): the property checked is schedule- and copy-independence of whatever the tree computes, not mesh content",
